@@ -105,6 +105,18 @@ impl JobManager {
 
         let id = self.jobs.len() + 1;
         job.id = id;
+        #[cfg(feature = "verif-hooks")]
+        crate::verif::event(
+            "job.add",
+            &format!(
+                "\"id\":{id},\"live\":[{}]",
+                self.jobs
+                    .iter()
+                    .map(|j| j.id.to_string())
+                    .collect::<Vec<_>>()
+                    .join(",")
+            ),
+        );
         job.annotation = JobAnnotation::Current;
         self.jobs.push(job);
 
@@ -164,15 +176,25 @@ impl JobManager {
 
     /// Waits for all managed jobs to complete.
     pub async fn wait_all(&mut self) -> Result<Vec<Job>, error::Error> {
+        #[cfg(feature = "verif-hooks")]
+        {
+            crate::verif::event("jobs.wait_all.enter", &format!("\"jobs\":{}", self.jobs.len()));
+            crate::verif::pause("jobs.wait_all");
+        }
         for job in &mut self.jobs {
             job.wait().await?;
         }
+
+        #[cfg(feature = "verif-hooks")]
+        crate::verif::event("jobs.wait_all.leave", "");
 
         Ok(self.sweep_completed_jobs())
     }
 
     /// Polls all managed jobs for completion.
     pub fn poll(&mut self) -> Result<Vec<JobResult>, error::Error> {
+        #[cfg(feature = "verif-hooks")]
+        crate::verif::pause("jobs.poll");
         let mut results = Vec::with_capacity(self.jobs.len());
 
         let mut i = 0;
